@@ -173,6 +173,10 @@ Shorten(n) ==
 Fnames(name, grid, n, gen, h5) ==
   {name \o "-g" \o ToString(grid) \o "-n" \o s \o "-a_" \o GenPiece(gen) \o "-h" \o ToString(h5) : s \in Shorten(n)}
 
+\* file name of a COLLECTION of configs (no single grid size / generator): name, total maze count, hash
+CollFnames(name, total, h5) ==
+  {"collected-" \o name \o "-n" \o s \o "-h" \o ToString(h5) : s \in Shorten(total)}
+
 ASSUME ShortenExamples ==
   /\ Shorten(0) = {"0"} /\ Shorten(999) = {"999"} /\ Shorten(1001) = {"1.0K"} /\ Shorten(1234) = {"1.2K"}
   /\ Shorten(1250) = {"1.2K", "1.3K"} /\ Shorten(9999) = {"10.0K"} /\ Shorten(10001) = {"10K"}
@@ -184,6 +188,7 @@ ASSUME FnameExamples ==
   /\ Last5(<<"9","9","0","0","1","2","3">>) = 123 /\ Last5(<<"7">>) = 7 /\ Last5(<<"5","0","0","0","0","0">>) = 0
   /\ Fnames("t", 3, 1500, "gen_dfs_percolation", Last5(<<"6","1","7","2","8","8">>)) = {"t-g3-n1.5K-a_dfs_percolation-h17288"}
   /\ Fnames("demo", 10, 5, "gen_dfs", Last5(<<"4","2","0","0","1","2","3">>)) = {"demo-g10-n5-a_dfs-h123"}   \* not h00123
+  /\ CollFnames("coll", 1505, 39811) = {"collected-coll-n1.5K-h39811"}
 
 \* ------------------------------------------------------------------ design-level domains (sequences: no set of trees is ever built)
 DNames == <<"a", "b">>
